@@ -44,7 +44,7 @@ CASES = {
 PLAN = {
     'quick': [('expr', 1, 'wide', 1), ('expr', 2, 'core', 2), ('table', 2, 'wide', 2), ('matrix', 2, 'wide', 2),
               ('table', 4, 'mini', 3), ('matrix', 4, 'mini', 2), ('expr', 3, 'mini', 2)],
-    'thorough': [('expr', 2, 'wide', 2), ('expr', 4, 'mini', 3), ('expr', 2, 'core', 2), ('table', 2, 'wide', 2),
+    'thorough': [('expr', 2, 'wide', 2), ('expr', 3, 'core', 3), ('expr', 4, 'mini', 3), ('table', 2, 'wide', 2),
                  ('table', 3, 'core', 3), ('table', 4, 'mini', 3), ('matrix', 2, 'wide', 2), ('matrix', 3, 'core', 3),
                  ('matrix', 4, 'mini', 2)],
 }
